@@ -49,6 +49,7 @@ class SymTab:
         self.byname = {"I": 0}
         self.origin = {}
         self.special = {0}           # ids with rewrite rules
+        self.constrained = set()     # entries of isometric factors (Q, U, V): never solved for
 
     def new(self, name, kind, origin=None):
         if name in self.byname:
@@ -791,6 +792,32 @@ class Poly:
 
     def __array__(self, dtype=None, copy=None):
         return self._arr0()
+
+    def subs(self, sid_, repl, cache=None):
+        """substitute symbol `sid_` (positive integer powers) by the Poly `repl`"""
+        out = None
+        same = {}
+        pw = cache if cache is not None else {}
+        for m, c in self.t.items():
+            e = 0
+            for s_, e_ in m:
+                if s_ == sid_:
+                    e = e_
+                    break
+            if not e:
+                same[m] = c
+                continue
+            if not isinstance(e, int) or e < 0:
+                raise Unsupported("substitution into a negative / fractional power")
+            rest = tuple(x for x in m if x[0] != sid_)
+            rp = pw.get(e)
+            if rp is None:
+                rp = repl ** e
+                pw[e] = rp
+            term = rp * Poly({rest: c})
+            out = term if out is None else out + term
+        base = Poly(same)
+        return base if out is None else base + out
 
     # evaluation at a numeric point: env maps symbol id -> complex/float
     def evaluate(self, env):
